@@ -72,6 +72,18 @@ extern "C" fn on_alarm(_: i32) {
     }
 }
 
+/// Per-run watchdog: 20 s of CPU time (a run costs well under a millisecond; CPU time, so that a
+/// paused or overloaded machine cannot trip it) plus a generous wall-clock backstop for a run
+/// that blocks in a system call.
+fn arm_watchdog() {
+    unsafe {
+        let mut t: libc::itimerval = std::mem::zeroed();
+        t.it_value.tv_sec = 20;
+        libc::setitimer(libc::ITIMER_PROF, &t, std::ptr::null_mut());
+        libc::alarm(900);
+    }
+}
+
 /// which profile a run of property `prop` uses: two thirds its own, one third the mixed one
 pub fn profile_for(prop: &str, idx: u64) -> String {
     if idx % 3 == 2 {
@@ -143,6 +155,7 @@ fn worker(args: &[String]) -> i32 {
     let outfile = &args[4];
     unsafe {
         libc::signal(libc::SIGALRM, on_alarm as usize);
+        libc::signal(libc::SIGPROF, on_alarm as usize);
     }
     let mut out = WorkerOut::default();
     let mut log = crate::rng::Fp::default();
@@ -162,9 +175,7 @@ fn worker(args: &[String]) -> i32 {
     for idx in from..from + count {
         CUR_IDX.store(idx, Ordering::Relaxed);
         note(idx, None);
-        unsafe {
-            libc::alarm(20);
-        }
+        arm_watchdog();
         let rs = run_seed(base, idx);
         let p = generate(&profile_for(prop, idx), rs);
         let want_sample = out.samples.len() < 2 && idx % 7 == 3;
@@ -219,9 +230,7 @@ fn worker(args: &[String]) -> i32 {
                 let f = fs[0].clone();
                 note(idx, Some(&f));
                 q.faults = fs;
-                unsafe {
-                    libc::alarm(20);
-                }
+                arm_watchdog();
                 let r2 = run(&q, false);
                 log.add(r2.stats.callbacks);
                 out.fault_variants += 1;
@@ -231,6 +240,8 @@ fn worker(args: &[String]) -> i32 {
     }
     unsafe {
         libc::alarm(0);
+        let z: libc::itimerval = std::mem::zeroed();
+        libc::setitimer(libc::ITIMER_PROF, &z, std::ptr::null_mut());
     }
     out.log_fp = log.0;
     out.last_idx = from + count;
